@@ -18,7 +18,7 @@ CLAIMS = {
          "§6 C04", "Lean 4 proof (floor-division bounds) + differential correspondence"),
  "C05": ("Lean theorems: share bracket on positive supply, exact min formula, empty-pair gate (whitelist, minimums, ⌊√(d0·d1)⌋), success characterisation, monotonicity in the deposits, superadditivity (splitting a provision never mints more). "
          "Correspondence: lp_share family on both branches.", "§6 C05", "Lean 4 proof + differential correspondence"),
- "C06": ("Lean theorems: commission = ⌊c·gross⌋, return+commission+spread = ⌊a·y/x⌋, the one-unit bracket around g(1−γ) (window included), monotonicity in the offer, "
+ "C06": ("Lean theorems: commission = ⌊c·gross⌋, return+commission+spread = ⌊a·y/x⌋, the one-unit bracket around g(1−γ) (window included), monotonicity in the offer and in the ask reserve, "
          "result ranges and the exact abort set. Correspondence: compute_swap / compute_swap_mono families.",
          "§6 C06", "Lean 4 proof + differential correspondence"),
  "C08": ("Lean theorems: for every Uint256/Decimal256 operator `op a b = ok r ↔ guard ∧ r = exact`, rounding toward zero by < 1 unit, no wrapped results, limb-level width conversions and limb order. "
